@@ -420,6 +420,23 @@ func c14Producers(p *Prog, r *Report) {
 				return true
 			})
 		}
+		// the result binding of a spliced-in helper makes the helper's local the same list: dropped := u.drop(tx)
+		for changed := true; changed; {
+			changed = false
+			for _, gn := range f.Nodes {
+				as, ok := gn.Ast.(*ast.AssignStmt)
+				if !ok || gn.Synth == "" || len(as.Lhs) != len(as.Rhs) {
+					continue
+				}
+				for i, l := range as.Lhs {
+					lp, rp := f.rawPath(l), f.rawPath(as.Rhs[i])
+					if lp != "" && rp != "" && lists[lp] && !lists[rp] {
+						lists[rp] = true
+						changed = true
+					}
+				}
+			}
+		}
 		isList := func(e ast.Expr) bool {
 			lp := f.rawPath(e)
 			return lp != "" && lists[lp]
